@@ -28,3 +28,14 @@ package state
 
 //@ func Keys.Has props C05
 //@   ensures result == ((permission | ite(has(k, str(key)), k[str(key)], 0)) == ite(has(k, str(key)), k[str(key)], 0))
+
+// WithoutPermissions returns a duplicate-free enumeration of len(k) declared keys; a duplicate-free
+// list of n members of an n-element set contains every member (pigeonhole), so these are exactly the
+// declared keys, each once.
+//@ func Keys.WithoutPermissions props C24
+//@   loop 1 invariant len(ks) == count1
+//@   loop 1 invariant forall i int :: 0 <= i && i < len(ks) ==> has(k, ks[i]) && has(visited1, ks[i])
+//@   loop 1 invariant forall i int, j int :: 0 <= i && i < j && j < len(ks) ==> ks[i] != ks[j]
+//@   ensures len(result) == len(k)
+//@   ensures forall i int :: 0 <= i && i < len(result) ==> has(k, result[i])
+//@   ensures forall i int, j int :: 0 <= i && i < j && j < len(result) ==> result[i] != result[j]
